@@ -564,6 +564,16 @@ class Ref:
         kw = {k: self.ev(x, o) for k, x in t[3].items()}
         return functools.partial(f, *args, **kw)
 
+    def ev_falift(self, t, o):
+        f = self.ev(("fn", t[1]), o)
+        kw = {k: self.ev(x, o) for k, x in t[2].items()}
+        return f(kw.get("a", ("sig", "a")), kw.get("b", ("sig", "b")), kw.get("c", ("sig", "c")))
+
+    def ev_palift(self, t, o):
+        f = self.ev(("fn", t[1]), o)
+        kw = {k: self.ev(x, o) for k, x in t[2].items()}
+        return lambda x: f(x, kw.get("b", ("sig", "b")), kw.get("c", ("sig", "c")))
+
     def ev_step(self, t, o):
         f = self.ev(("fn", t[1]), o)
         kw = {k: self.ev(x, o) for k, x in t[2].items()}
@@ -621,6 +631,8 @@ class Ref:
         self.body_events.append((name, self._projection(t, o2)))
 
         def body():
+            if p["definition"] is not None:
+                return self.ev(p["definition"], o2)  # defined from an expression: no body function runs
             i0 = len(self.log)
             args = [self.ev(x, o2) for x in p["params"]]
             for k, n, _ in self.log[i0:]:
